@@ -51,6 +51,29 @@ pub fn expand_self<T: VisitableMut + Clone>(input: &T, to: &Type) -> T {
     input
 }
 
+/// The type `Ident<'a, T, { N }>` of an item. Const arguments are wrapped in braces so that a
+/// const parameter that has the name of a type in scope is not mistaken for that type.
+pub fn self_type(ident: &Ident, generics: &Generics) -> Type {
+    if generics.params.is_empty() {
+        return parse_quote!(#ident);
+    }
+    let args = generics.params.iter().map(|p| match p {
+        GenericParam::Lifetime(l) => {
+            let l = &l.lifetime;
+            quote::quote!(#l)
+        }
+        GenericParam::Type(t) => {
+            let t = &t.ident;
+            quote::quote!(#t)
+        }
+        GenericParam::Const(c) => {
+            let c = &c.ident;
+            quote::quote!({ #c })
+        }
+    });
+    parse_quote!(#ident<#(#args),*>)
+}
+
 pub struct GenericParamSet {
     idents: HashSet<Ident>,
 }
